@@ -66,7 +66,7 @@ func (d *driver) handle(line string) (out string) {
 	case "setup":
 		return d.setup(f[1:])
 	case "recv", "recvh", "recvraw", "recvbare", "deposit", "msg", "query", "export", "env", "fault",
-		"genvalidate", "geninit", "genload", "reimport", "cmpstacks", "withoutmw", "withoutmwc", "cb", "msgany", "listrpcs", "swapctl", "msgh", "acth", "msgdry", "dispatchh", "drybegin", "dryend":
+		"genvalidate", "geninit", "genload", "reimport", "cmpstacks", "withoutmw", "withoutmwc", "cb", "msgany", "listrpcs", "swapctl", "msgh", "acth", "msgdry", "dispatchh", "drybegin", "dryend", "escrowfund":
 		if d.st == nil {
 			if r := d.setup(nil); r != "ok" {
 				return r
